@@ -1,5 +1,15 @@
 open Datatypes
 
+(** val nth_error : 'a1 list -> nat -> 'a1 option **)
+
+let rec nth_error l = function
+| O -> (match l with
+        | [] -> None
+        | x :: _ -> Some x)
+| S n0 -> (match l with
+           | [] -> None
+           | _ :: l0 -> nth_error l0 n0)
+
 (** val removelast : 'a1 list -> 'a1 list **)
 
 let rec removelast = function
@@ -32,6 +42,13 @@ let rec flat_map f = function
 | [] -> []
 | x :: t -> app (f x) (flat_map f t)
 
+(** val fold_left : ('a1 -> 'a2 -> 'a1) -> 'a2 list -> 'a1 -> 'a1 **)
+
+let rec fold_left f l a0 =
+  match l with
+  | [] -> a0
+  | b :: t -> fold_left f t (f a0 b)
+
 (** val existsb : ('a1 -> bool) -> 'a1 list -> bool **)
 
 let rec existsb f = function
@@ -49,3 +66,19 @@ let rec filter f = function
 let rec find f = function
 | [] -> None
 | x :: tl -> if f x then Some x else find f tl
+
+(** val combine : 'a1 list -> 'a2 list -> ('a1 * 'a2) list **)
+
+let rec combine l l' =
+  match l with
+  | [] -> []
+  | x :: tl ->
+    (match l' with
+     | [] -> []
+     | y :: tl' -> (x, y) :: (combine tl tl'))
+
+(** val repeat : 'a1 -> nat -> 'a1 list **)
+
+let rec repeat x = function
+| O -> []
+| S k -> x :: (repeat x k)
